@@ -66,6 +66,9 @@ type Config struct {
 	// Conc: the instance serves concurrent requests (C20): per-request harness bookkeeping that is
 	// not goroutine-safe is switched off and the shipped SMTP and log mailers are in the mail path.
 	Conc bool `json:"conc,omitempty"`
+	// RegNoWhitelist: the application configured no extra registration fields at all
+	// (defaults.HTTPBodyReader.Whitelist["register"] removed).
+	RegNoWhitelist bool `json:"regNoWhitelist"`
 }
 
 func (c Config) Has(m string) bool {
@@ -550,6 +553,11 @@ func New(cfg Config) (*Instance, error) {
 	}
 	ab.Config.Core.MailRenderer = renderer{store: in.Store, mail: true}
 	defaults.SetCore(&ab.Config, cfg.JSON, false)
+	if cfg.RegNoWhitelist {
+		if br, ok := ab.Config.Core.BodyReader.(*defaults.HTTPBodyReader); ok {
+			delete(br.Whitelist, "register")
+		}
+	}
 	ab.Config.Core.BodyReader = otpReader{ab.Config.Core.BodyReader}
 	logger := defaults.NewLogger(in.Log)
 	ab.Config.Core.Logger = logger
